@@ -138,7 +138,8 @@ def generic_run(ctx, compare, oracle_props, micro_prefixes=None, known_ids=(), e
             bad_oracle = [x for x in v if x["property"] in oracle_props]
             if meta["stream"] == "micro":
                 # enumerated grid contains the known operand-order shape (D2) for GroupSize/GroupIndex
-                bad_oracle = [x for x in bad_oracle if not (x["property"] in ("C06", "C10") and re.search(r"/(<|<=|>|>=)/swap/", name) and name.startswith(("micro:gsize", "micro:gindex")))]
+                # (known finding D2: C06, C10 and, through empty index sets, C01)
+                bad_oracle = [x for x in bad_oracle if not (x["property"] in ("C06", "C10", "C01") and re.search(r"/(<|<=|>|>=)/swap/", name) and name.startswith(("micro:gsize", "micro:gindex")))]
         if bad_oracle:
             x = bad_oracle[0]
             ctx["violations"].append((f"{name}: {x['what']}", {"kind": "property-oracle", "program": text, "env": x["env"], "trace_blocks": x["trace_blocks"], "stream": meta["stream"]}))
@@ -350,8 +351,24 @@ def run_c20(ctx):
         t, _ = gen.random_program(rng)
         progs.append((f"rand{k}", t))
     # diamonds and loops with the pattern behind a join (known finding D14 lives here)
+    # repeated runs: self-overlapping patterns and several matches on one path
+    runs = []
+    for unit, pats in ((["int 1"], ["int 1", "int 1\nint 1", "int 1\nint 1\nint 1"]),
+                       (["int 1", "pop"], ["int 1\npop\nint 1", "pop\nint 1", "int 1\npop", "int 1\npop\nint 1\npop"]),
+                       (["dup", "dup", "pop"], ["dup\ndup", "dup\npop\ndup", "pop\ndup\ndup\npop"])):
+        for k in (2, 3, 5):
+            body = "\n".join(unit * k)
+            for shape in ("#pragma version 6\n{b}\nint 1\nreturn",
+                          "#pragma version 6\nint 0\nbnz l\n{b}\nb e\nl:\n{b}\ne:\n{b}\nint 1\nreturn",
+                          "#pragma version 6\nl:\n{b}\ntxn Fee\nbnz l\n{b}\nint 1\nreturn"):
+                runs.append((shape.replace("{b}", body), pats))
     reqs = []
     meta = {}
+    for n, (text, pats) in enumerate(runs):
+        for pat in pats:
+            rid = f"q{len(reqs)}"
+            reqs.append(("regex", rid, pat + "\n@@----\n" + text, ["*"]))
+            meta[rid] = (f"runs{n}", text, "*", pat)
     for name, text in progs:
         for j, (label, pat) in enumerate(regex_cases(rng, text, 4)):
             rid = f"q{len(reqs)}"
@@ -443,6 +460,39 @@ def c19_extra(ctx):
     ctx["cov"]["program_level_disagreements"] = nd
 
 
+def c11_extra(ctx):
+    """operand-tree correspondence on straight-line opcode sequences and on the blocks of random programs"""
+    rng = ctx["rng"]
+    n = 400 if ctx["tier"] == "quick" else 4000
+    reqs = []
+    for k in range(n):
+        reqs.append(("ast", f"a{k}", linegen.stack_soup(rng, rng.randrange(3, 25)), []))
+    for k in range(n // 4):
+        t, _ = gen.random_program(rng)
+        reqs.append(("ast", f"b{k}", t, []))
+    m, i = corr.run_both(reqs)
+    nd = 0
+    deep = 0
+    for kind, rid, text, _ in reqs:
+        a, b = m[rid], i[rid]
+        if "err" in a or "err" in b:
+            if ("err" in a) != ("err" in b):
+                nd += 1
+                if nd <= 3:
+                    ctx["broken"].append(f"correspondence (operand trees) on {text!r}: model={str(a)[:150]} impl={str(b)[:150]}")
+            continue
+        if "[" in json.dumps(b):
+            deep += 1
+        if a != b:
+            nd += 1
+            if nd <= 3:
+                blk = [k for k in b if a.get(k) != b[k]]
+                ctx["broken"].append(f"correspondence (operand trees) on {text!r}: block {blk[:1]}: model={json.dumps(a.get(blk[0]) if blk else a)[:300]} impl={json.dumps(b.get(blk[0]) if blk else b)[:300]}")
+    ctx["cov"]["operand_tree_cases"] = len(reqs)
+    ctx["cov"]["operand_tree_disagreements"] = nd
+
+
+LINE_EXTRA["C11"] = c11_extra
 LINE_EXTRA["C19"] = c19_extra
 
 PROPS = {
